@@ -38,9 +38,11 @@ Proof.
 Qed.
 
 (* ------------------------------------------------------------------ children / parent, one axis *)
+(* (the *_val lemmas are proved by ring normalisation, not by reflexivity, so that an
+   arithmetically equivalent rewrite of the Python line does not break the development) *)
 Lemma children_val sh s i c :
   gen_children i sh s c = gen_parse_index i sh * s + c.
-Proof. reflexivity. Qed.
+Proof. unfold gen_children. cbv zeta. ring. Qed.
 
 Lemma children_range sh s i c :
   0 < sh -> 0 < s -> 0 <= c < s -> 0 <= gen_children i sh s c < sh * s.
@@ -136,7 +138,7 @@ Qed.
 (* ------------------------------------------------------------------ neighbourhood, one axis *)
 Lemma nbr_val sh w i c :
   gen_neighborhood i sh w c = (gen_parse_index i sh + (c - w / 2)) mod sh.
-Proof. reflexivity. Qed.
+Proof. unfold gen_neighborhood. cbv zeta. f_equal; ring. Qed.
 
 Lemma nbr_range sh w i c : 0 < sh -> 0 <= gen_neighborhood i sh w c < sh.
 Proof. intros H. rewrite nbr_val. apply Z.mod_pos_bound; lia. Qed.
@@ -175,13 +177,13 @@ Qed.
 (* ------------------------------------------------------------------ level recursion *)
 Lemma open_at_step_val shp shifts si pd :
   gen_open_at_step shp shifts si pd = (si * (shp - 2 * pd), si * (shifts + pd)).
-Proof. reflexivity. Qed.
+Proof. unfold gen_open_at_step. cbv zeta. f_equal; ring. Qed.
 
 (* the padded extent shape + 2*shifts scales exactly by the split *)
 Lemma open_at_step_extent shp shifts si pd :
   let st := gen_open_at_step shp shifts si pd in
   fst st + 2 * snd st = si * (shp + 2 * shifts).
-Proof. cbv [gen_open_at_step fst snd]. lia. Qed.
+Proof. rewrite open_at_step_val. cbv [fst snd]. lia. Qed.
 
 Lemma firstn_S_nth {A} (l : list A) (n : nat) (d : A) :
   (n < length l)%nat -> firstn (S n) l = firstn n l ++ [nth n l d].
